@@ -33,6 +33,8 @@ Lemma frame_upd f : (forall s, dimfix s (f s)) -> frame (upd_st f).
 Proof. intros H s ts. apply H. Qed.
 Lemma frame_rd n : frame (rd n).
 Proof. intros s ts. unfold rd. destruct (take_bytes ts n); try exact I. apply dimfix_refl. Qed.
+Lemma frame_desyncM {A} c : frame (@desyncM A c).
+Proof. intros s ts. exact I. Qed.
 Lemma frame_const {A} (r : res A) : match r with Ok _ _ _ => False | _ => True end -> frame (fun _ _ => r).
 Proof. intros H s ts. destruct r; auto. contradiction. Qed.
 
@@ -66,7 +68,7 @@ Ltac frm_step :=
       | |- frame (let '(_, _) := ?x in _) => destruct x
       | |- frame (fun _ _ => Fail) => apply frame_const; exact I
       | |- frame (fun _ _ => More) => apply frame_const; exact I
-      | |- frame (fun _ _ => Desync) => apply frame_const; exact I
+      | |- frame (desyncM _) => apply frame_desyncM
       end ].
 Ltac frm := repeat frm_step.
 
